@@ -482,3 +482,20 @@ def run(chk):
     chk.not_decided += ["linearizability, claim-order delivery and quiescent free count over all interleavings"]
     for cfg in ("default", "noatomics"):
         run_config(chk, cfg)
+    # the slot a claimer is handed, the flag bit a sender sets and the slot a receiver reads are the same message only if
+    # index -> address and address -> index are exact inverses: C10's addressing rule, on the same functions
+    from . import C10
+    chk.rule("C10.G3", "claim/receive return basep + index*msg_len computed without narrowing; send recovers the index from the un-narrowed byte offset")
+    chk.rule_prefix = "C10."
+    chk.rule_filter = lambda r: r.startswith("G3")
+    try:
+        for cfg in ("default", "noatomics"):
+            mods = build.load_units(build.library_units(), cfg)
+            for m, fn, acc in mq.mq_functions(mods):
+                rs = mq.roles(fn, acc)
+                for role in ("receive", "claim", "send"):
+                    if role in rs and "init" not in rs:
+                        C10.check_addressing(chk, cfg, m, fn, role)
+    finally:
+        chk.rule_prefix = ""
+        chk.rule_filter = None
